@@ -47,7 +47,8 @@ def norm_loc(loc):
 def norm_uni(uni):
     return {"L": uni["L"], "circ": uni["circ"],
             "genes": [{"loc": norm_loc(g["loc"]), "core_for": list(g["core_for"])} for g in uni["genes"]],
-            "areas": [{"kind": a["kind"], "core": norm_loc(a["core"]), "extent": norm_loc(a["extent"]), "product": a["product"]}
+            "areas": [dict({"kind": a["kind"], "core": norm_loc(a["core"]), "extent": norm_loc(a["extent"]), "product": a["product"]},
+                           **({"sideloaded": True} if a.get("sideloaded") else {}))
                       for a in uni["areas"]]}
 
 
@@ -188,6 +189,8 @@ def features(uni):
             before_origin = start >= area["extent"]["parts"][0][0]
             if before_origin != (uni["L"] - start < end):
                 feats.append("core_side_not_told_by_record_midpoint")
+    if any(a.get("sideloaded") for a in protos):
+        feats.append("sideloaded_protocluster")
     if any(_crosses(a["extent"]) for a in uni["areas"]):
         feats.append("area_over_origin")
     if len(uni["areas"]) >= 3:
@@ -532,6 +535,19 @@ def run(ctx):
         cases.append({"uni": wrapped_and_row_universe(rng), "sampled": True})
     for _ in range(randoms // 20):
         cases.append({"uni": twin_extent_universe(rng), "sampled": True})
+    # externally annotated protoclusters (SideloadedProtocluster): the same shapes, drawn by their own generator so that the
+    # universes above stay what they were
+    side_rng = random.Random(ctx.seed + 104729)
+    for idx in range(randoms // 5):
+        uni = wrapped_and_row_universe(side_rng) if idx % 4 == 3 else random_universe(side_rng)
+        uni = norm_uni(uni)
+        protos = [a for a in uni["areas"] if a["kind"] == "proto"]
+        for area in protos:
+            if side_rng.random() < 0.6:
+                area["sideloaded"] = True
+        if protos and not any(a.get("sideloaded") for a in protos):
+            protos[0]["sideloaded"] = True
+        cases.append({"uni": uni, "sampled": True})
     for idx, case in enumerate(cases):
         case["id"] = idx
 
